@@ -259,15 +259,115 @@ class C13LeakInTeardown(Prop):
             yield {**case, "block_fails": False}
 
 
+class C13KeptContext(Prop):
+    """A component keeps the context it was started in (`current_context()` inside `start()`: its own, a stand-in for the
+    real one) and a context is later created with that object as its parent: it is a child of the *real* context like any
+    other - left open when the real context is left, it is reported. Observed directly (the kernel model has no
+    components' contexts)."""
+    id = "C13"
+    kinds = ("keptctx",)
+
+    def generate(self, rng: random.Random, tier: str, index: int) -> dict[str, Any]:
+        return {"kind": "keptctx", "backend": ("asyncio", "trio")[index % 2], "via": rng.choice(["component", "component", "real"]),
+                "left": rng.random() < 0.4, "nested": rng.random() < 0.5, "when": rng.choice(["after", "in_start"])}
+
+    def exhaustive(self, tier: str):
+        return [{"kind": "keptctx", "backend": b, "via": v, "left": l, "nested": n, "when": w, "origin": "keptctx"}
+                for b in ("asyncio", "trio") for v in ("component", "real") for l in (False, True) for n in (False, True)
+                for w in ("after", "in_start")]
+
+    def run_impl(self, case):
+        import anyio
+
+        from asphalt.core import Component, Context, current_context, start_component
+
+        from ..impl import vclock
+
+        async def main() -> dict[str, Any]:
+            kept: list[Any] = []
+            made: list[Any] = []
+            res: dict[str, Any] = {"raised": None, "parent_ok": None, "usable_after": None}
+
+            async def open_child(real: Any) -> None:
+                child = Context(kept[0] if case["via"] == "component" else real)
+                made.append(child)
+                res["parent_ok"] = child.parent is real
+                await child.__aenter__()
+                if case["left"]:
+                    await child.__aexit__(None, None, None)
+
+            class Comp(Component):
+                async def start(self) -> None:
+                    kept.append(current_context())
+                    if case["when"] == "in_start":
+                        await open_child(app)
+
+            async def body() -> None:
+                nonlocal app
+                async with Context() as app:
+                    await start_component(Comp, timeout=None)
+                    if case["when"] == "after":
+                        await open_child(app)
+
+            app: Any = None
+            try:
+                if case["nested"]:
+                    async with Context():
+                        try:
+                            await body()
+                        except RuntimeError as e:
+                            res["raised"] = "RuntimeError"
+                            del e
+                else:
+                    await body()
+            except RuntimeError:
+                res["raised"] = "RuntimeError"
+            except BaseException as e:  # noqa: BLE001
+                res["raised"] = type(e).__name__
+            if made and not case["left"]:
+                try:
+                    made[0].add_resource(object(), "late")
+                    res["usable_after"] = True
+                except RuntimeError:
+                    res["usable_after"] = False
+            return res
+
+        return vclock.run(main, backend=case["backend"])
+
+    def model_request(self, case, impl):
+        return None
+
+    def compare(self, case, impl, model):
+        return None
+
+    def monitor(self, case, impl):
+        fails = []
+        if impl["parent_ok"] is False:
+            fails.append("a context created with a component's context as parent is not a child of the real context")
+        want = None if case["left"] else "RuntimeError"
+        if impl["raised"] != want:
+            fails.append(f"leaving the context with a child {'left properly' if case['left'] else 'still open'} "
+                         f"(parent given as the {case['via']} context) ended with {impl['raised']}, expected {want}")
+        return ["[C13] " + f for f in fails]
+
+    def nontrivial(self, case, impl):
+        return case["via"] == "component" and not case["left"]
+
+    def features(self, case, impl):
+        return ["kept_component_context", "backend_" + case["backend"], "parent_via_" + case["via"]]
+
+
 class C13(Composite):
     id = "C13"
     quick_cases = C13Kernel.quick_cases
     thorough_cases = C13Kernel.thorough_cases
-    parts = [(14, C13Kernel()), (2, C13Tasks()), (1, C13LeakInTeardown())]
+    parts = [(14, C13Kernel()), (2, C13Tasks()), (1, C13LeakInTeardown()), (1, C13KeptContext())]
     rule = C13Kernel.rule + ("; two cases in seventeen are service-task programs (as in C08) with frequent task crashes: "
                              "tasks that are still cleaning up while the root context waits for them inside its exit look "
                              "resources up in it; one in seventeen leaves a root or nested context whose block or whose "
-                             "teardown callbacks entered 1-2 child contexts and did not leave them")
+                             "teardown callbacks entered 1-2 child contexts and did not leave them; one in eighteen (and 32 enumerated cases) creates "
+                             "a context whose parent is given as the context object a component kept from start(): it is a child of "
+                             "the real context, reported when left open")
     assumptions = C13Kernel.assumptions
 
 
